@@ -187,28 +187,46 @@ PROPS['C15'] = {
                  'Yabgp.Mp.C15_ipv6_prefixes', 'Yabgp.Mp.C15_labeled', 'Yabgp.Mp.C15_vpn',
                  'Yabgp.Mp.C15_ipv6_prefixes_concat', 'Yabgp.Mp.C15_labeled_concat', 'Yabgp.Mp.C15_vpn_concat',
                  'Yabgp.C15_evpn_routes', 'Yabgp.C15_evpn_unknown_type', 'Yabgp.C15_evpn_entry',
-                 'Yabgp.C15_flowspec_components', 'Yabgp.C15_flowspec_component', 'Yabgp.C15_flowspec_rules'],
-    'genagree': ['Yabgp.GenAgree.attr_codes', 'Yabgp.GenAgree.attr_ids', 'Yabgp.GenAgree.capability_codes'],
-    'suites': ['compose', 'refupdate', 'mpnlri', 'evf'],
+                 'Yabgp.C15_flowspec_components', 'Yabgp.C15_flowspec_component', 'Yabgp.C15_flowspec_rules',
+                 'Yabgp.C15_tlv_append_general', 'Yabgp.C15_tlv_append', 'Yabgp.C15_tlv_wellformed_append', 'Yabgp.C15_tlv_insert',
+                 'Yabgp.C15_instance_append', 'Yabgp.C15_ls_attr_append', 'Yabgp.C15_ls_attr_unknown_between',
+                 'Yabgp.C15_nlri_unknown_skipped', 'Yabgp.C15_reg_unknown_between', 'Yabgp.C15_prefix_sid_unknown_between',
+                 'Yabgp.C15_node_descriptor_dict', 'Yabgp.C15_ls_attr_position_irrelevant', 'Yabgp.C15_ls_attr_context_perm',
+                 'Yabgp.KF_C15_empty_ls_attr_depends_on_order'],
+    'genagree': ['Yabgp.GenAgree.attr_codes', 'Yabgp.GenAgree.attr_ids', 'Yabgp.GenAgree.capability_codes',
+                 'Yabgp.gen_loops_covered', 'Yabgp.gen_ls_registry', 'Yabgp.gen_ls_special', 'Yabgp.gen_psid_registries'],
+    'suites': ['compose', 'refupdate', 'mpnlri', 'evf', 'tlv'],
     'cannot': 'PARTIAL: proved for IPv4 prefix lists, communities, cluster lists, large communities, AS_PATH/AS4_PATH segments, '
               'OPEN capabilities / optional parameters (for arbitrary capability TLVs), path-attribute order and unknown-attribute '
-              'insertion, IPv6 prefix lists (except the recorded 00 00 finding), labeled and VPN route lists, EVPN routes (incl. unknown route types), flowspec rules and components; extended '
-              'communities and the BGP-LS / Prefix-SID TLV containers are not in this check yet',
+              'insertion, IPv6 prefix lists (except the recorded 00 00 finding), labeled and VPN route lists, EVPN routes (incl. unknown route types), flowspec rules and components, and - parametric '
+              'in the per-TLV body decoder - the BGP-LS NLRI / descriptor / attribute and Prefix-SID TLV containers incl. the position of '
+              'the LINK_STATE attribute; extended communities are 8-octet words (C17 proves their list decoding by induction); MP_REACH '
+              'enters the LINK_STATE order theorem only through the protocol id it yields',
 }
 
 PROPS['C11'] = {
     'module': 'Yabgp.Props.C11',
     'theorems': ['Yabgp.C11_update_never_raises', 'Yabgp.C11_update_raises_only_out_of_range', 'Yabgp.C11_update_first_field',
                  'Yabgp.C11_prefix_progress', 'Yabgp.C11_prefix_work', 'Yabgp.C11_attr_progress', 'Yabgp.C11_aspath_work',
-                 'Yabgp.C11_caps_progress', 'Yabgp.C11_words_work', 'Yabgp.C04_terminates'],
-    'genagree': ['Yabgp.GenAgree.attr_codes', 'Yabgp.GenAgree.attr_ids', 'Yabgp.GenAgree.update_errors'],
-    'suites': ['decoders', 'update', 'hostile'],
+                 'Yabgp.C11_caps_progress', 'Yabgp.C11_words_work', 'Yabgp.C04_terminates',
+                 'Yabgp.C11_tlv_work_bound', 'Yabgp.C11_tlv_work_bound_instances', 'Yabgp.C11_tlv_instances_advance',
+                 'Yabgp.C11_tlv_total', 'Yabgp.C11_tlv_split_then_map', 'Yabgp.C11_tlv_nested_work_bound',
+                 'Yabgp.C11_ls_attr_nested_work_bound', 'Yabgp.C11_range_bound'],
+    'genagree': ['Yabgp.GenAgree.attr_codes', 'Yabgp.GenAgree.attr_ids', 'Yabgp.GenAgree.update_errors',
+                 'Yabgp.gen_loops_covered', 'Yabgp.gen_loops_advance', 'Yabgp.covered_instances_exist',
+                 'Yabgp.gen_ls_registry', 'Yabgp.gen_ls_special', 'Yabgp.gen_ls_two_arg', 'Yabgp.gen_ls_no_unpack',
+                 'Yabgp.gen_psid_registries'],
+    'suites': ['decoders', 'update', 'hostile', 'tlv'],
     'cannot': 'PARTIAL: termination (total Lean definitions without fuel), per-iteration progress, work bounds and never-raises are '
               'proved for the decoders that are modelled: UPDATE framing, IPv4 prefix lists, the standard attributes incl. AS_PATH, '
               'communities, OPEN with all capability loops, NOTIFICATION, KEEPALIVE, ROUTE-REFRESH, and the receive-buffer deframer. '
               'The multiprotocol, BGP-LS, Prefix-SID, tunnel and extended-community decoders are exercised on the real code under a '
               'CPU budget through Update.parse (every type code x length 0..16, every 1-octet / length-field mutation of the '
-              'repo\'s own encodings) but are not covered by a theorem in this check yet; CPU time itself is only measured',
+              'repo\'s own encodings); the TLV containers of BGP-LS NLRI, the BGP-LS attribute and Prefix-SID are covered by the parametric '
+              'model Model/Tlv.lean (work bounds for every body decoder; loop inventory regenerated from the AST on every run by '
+              'gen_loops.py and proved equal to the covered list); the ~60 straight-line TLV bodies, the MP/EVPN/flowspec/extcommunity '
+              'loops (modelled under C07/C17, termination by construction there) and tunnel/PMSI decoders have no C11 theorem of their own; '
+              'CPU time itself is only measured',
 }
 
 PROPS['C19'] = {
